@@ -8,7 +8,8 @@ import IsoDT.Model.ConstructTrunc
 import IsoDT.Lemmas.Conv
 import IsoDT.Props.C09
 
-namespace IsoDT.Lemmas
+namespace IsoDT.Lemmas.ConstructTrunc
+open IsoDT.Lemmas
 open IsoDT IsoDT.Model
 open IsoDT.Spec (TZ)
 open IsoDT.Props.C09 (mkTZOpt_valid mkTZOpt_of_valid)
@@ -334,4 +335,4 @@ theorem nonneg_twin (m : Mode) (y : Int) :
   exact ⟨y + 2800 * (-(y / 2800)), by omega, by omega, by omega,
     fun mo => monthLen_periodic m y _ mo, yearLen_periodic m y _, weeksInYear_periodic m y _⟩
 
-end IsoDT.Lemmas
+end IsoDT.Lemmas.ConstructTrunc
